@@ -501,6 +501,14 @@ func (p *Prog) computeEffects() {
 				}
 				continue
 			}
+			if call, ok := m.(*ast.CallExpr); ok && markerName(call) == "__mapcontent" {
+				if t := c.typeOf(call.Args[0]); t != nil {
+					if mt, ok := t.Underlying().(*types.Map); ok {
+						c.mapHeaps(mt, c.eff.Writes)
+					}
+				}
+				continue
+			}
 			if ue, ok := m.(*ast.UnaryExpr); ok && ue.Op == token.AND {
 				c.access(ue.X, c.eff.Writes)
 			}
